@@ -104,6 +104,14 @@ func (s *Scenario) Hash() uint64 {
 func genDocs(r *Rng, maxNodes int) []DocSpec {
 	n := r.Weighted([]int{0, 5, 3, 1})
 	var ds []DocSpec
+	defer func() {
+		// one document in six is navigated through the second navigator type
+		for i := range ds {
+			if r.Chance(1, 6) {
+				ds[i].NoNS = true
+			}
+		}
+	}()
 	for i := 0; i < n; i++ {
 		switch {
 		case r.Chance(1, 14):
@@ -642,6 +650,31 @@ func GenC05(seed, run uint64, ok CompileOK) *Scenario {
 			}
 		}
 	}
+	mixedNavs := false
+	if s.Cfg.NS && r.Chance(1, 2) {
+		// namespaces matter in this run: two documents with elements in both
+		// namespaces, navigated through the two navigator implementations, and a
+		// few plain prefixed name tests among the expressions
+		for len(s.Docs) < 2 {
+			s.Docs = append(s.Docs, GenDoc(r, 12))
+		}
+		for di := 0; di < 2; di++ {
+			top := s.Docs[di].C[len(s.Docs[di].C)-1]
+			top.C = append(top.C, &NodeSpec{K: "e", N: "x:a", NS: "urn:x", A: [][2]string{{"id", "1"}}}, &NodeSpec{K: "e", N: "y:b", NS: "urn:y"},
+				&NodeSpec{K: "e", N: "x:a", NS: "urn:y"}, &NodeSpec{K: "e", N: "z:a", NS: "urn:x"})
+		}
+		s.Docs[0].NoNS, s.Docs[1].NoNS = false, true
+		if r.Chance(1, 2) {
+			s.Docs[0].NoNS, s.Docs[1].NoNS = true, false
+		}
+		for k := r.Range(1, 2); k > 0; k-- {
+			t := r.Pick([]string{"//x:a", "//y:b", "count(//x:a)", "//x:a/@id", "//*[self::x:a]", "//x:a | //y:b"})
+			if ok == nil || ok(t) {
+				s.Exprs = append(s.Exprs, ExprSpec{Text: t})
+			}
+		}
+		mixedNavs = true
+	}
 	nt := r.Range(2, 4)
 	if r.Chance(1, 15) {
 		nt = r.Range(5, 6) // size stratum: more callers
@@ -656,6 +689,10 @@ func GenC05(seed, run uint64, ok CompileOK) *Scenario {
 			st := Step{E: hotE, D: hotD, C: hotC}
 			if r.Chance(1, 3) || regexRun {
 				st.E = r.Intn(len(s.Exprs))
+			}
+			if mixedNavs {
+				st.E = r.Intn(len(s.Exprs))
+				st.D, st.C = r.Intn(2), 0
 			}
 			if r.Chance(1, 4) {
 				st.D = r.Intn(len(s.Docs))
